@@ -164,4 +164,15 @@ theorem not_acyclic_of_cycle (E : List Edge) (i : Nat) (hi : i < E.length)
 example : IsTree [0, 1, 2, 3] [(0, 1), (2, 0), (0, 3)] :=
   isTree_sound _ _ (by decide)
 
+-- non-vacuity (joint) of `isTreeWithLeaves_complete` / `isTree_complete` / `acyclic_no_selfloop`: the star
+example : IsTree [0, 1, 2, 3] [(0, 1), (2, 0), (0, 3)] ∧ LeavesAre [0, 1, 2, 3] [(0, 1), (2, 0), (0, 3)] [3, 1, 2] ∧
+    isTreeWithLeaves [(0, 1), (2, 0), (0, 3)] [0, 1, 2, 3] [3, 1, 2] = true ∧ (0, 0) ∉ [(0, 1), (2, 0), (0, 3)] :=
+  have ht : IsTree [0, 1, 2, 3] [(0, 1), (2, 0), (0, 3)] := isTree_sound _ _ (by decide)
+  have hl : LeavesAre [0, 1, 2, 3] [(0, 1), (2, 0), (0, 3)] [3, 1, 2] := (leavesAre_iff _ _ _).mp (by decide)
+  ⟨ht, hl, isTreeWithLeaves_complete _ _ _ ht hl, acyclic_no_selfloop _ ht.2.2 0⟩
+
+-- non-vacuity of `not_acyclic_of_cycle`: a doubled connector: the ends of edge 0 are joined by the other edge
+example : ¬ Acyclic [(0, 1), (1, 0)] :=
+  not_acyclic_of_cycle [(0, 1), (1, 0)] 0 (by decide) (Reach.step (Reach.refl 0) (Or.inr (List.Mem.head _)))
+
 end AdaptaVerif.Props.C12
